@@ -1417,7 +1417,7 @@ func TestFoBurst(t *testing.T) {
 
 		// while ALL builders are inside: second Gets for keys across the whole burst (early and late arrivals alike);
 		// each of them finds its key being built and waits
-		for i := 0; i < K; i += K / 40 {
+		for i := 0; i < K; i += 4 { // every fourth key: the few keys that arrived last are among them
 			wg.Add(1)
 
 			go get(keys[2+i])
